@@ -36,11 +36,12 @@ static void check_buffer(const unsigned char *data, size_t n, const std::vector<
     if(d.ok && na != d.vals.size()) fail("narguments", tags, g_desc, std::to_string(na), std::to_string(d.vals.size()));
     if(na > n) { fail("narguments_bounds", tags, g_desc, std::to_string(na), "<= n"); return; }
     rtosc_arg_itr_t it = rtosc_itr_begin(p);
+    std::vector<std::pair<char, rtosc_arg_t>> first(na);
     for(size_t i = 0; i < na; ++i) {
         for(int pass = 0; pass < 2; ++pass) {
             char t;
             rtosc_arg_t a;
-            if(pass == 0) { t = rtosc_type(p, i); a = rtosc_argument(p, i); }
+            if(pass == 0) { t = rtosc_type(p, i); a = rtosc_argument(p, i); first[i].first = t; memset(&first[i].second, 0, sizeof(rtosc_arg_t)); first[i].second = a; }
             else {
                 if(rtosc_itr_end(it)) { fail("iterator_short", tags, g_desc, fmt("ended at %zu", i), std::to_string(na)); return; }
                 rtosc_arg_val_t av = rtosc_itr_next(&it);
@@ -74,6 +75,74 @@ static void check_buffer(const unsigned char *data, size_t n, const std::vector<
         }
     }
     if(!rtosc_itr_end(it)) fail("iterator_long", tags, g_desc, "iterator yields more values than rtosc_narguments", std::to_string(na));
+    // accessors are functions of the bytes: the same arguments read back to front give the same answers
+    for(size_t k = na; k-- > 0;) {
+        char t = rtosc_type(p, k);
+        rtosc_arg_t a = rtosc_argument(p, k);
+        bool same = t == first[k].first;
+        if(same) switch(t) {
+            case 's': case 'S': same = a.s == first[k].second.s; break;
+            case 'b': same = a.b.data == first[k].second.b.data && a.b.len == first[k].second.b.len; break;
+            case 'h': case 't': case 'd': same = !memcmp(&a.t, &first[k].second.t, 8); break;
+            case 'i': case 'c': case 'r': case 'f': case 'm': same = !memcmp(&a.i, &first[k].second.i, 4); break;
+            default: break;
+        }
+        count("accessor.by_index_descending");
+        if(!same) { fail("by_index_order_dependent", tags, g_desc, fmt("arg %zu read after arg %zu differs from the first reading", k, k + 1), "the same value whatever was read before"); break; }
+    }
+    // ... wherever the message lies: 1..3 bytes behind an aligned address (upstream: test/message-alignment.c)
+    if(na) {
+        size_t shift = 1 + hash_bytes(data, n) % 3;
+        char *hb = (char *)malloc(n + shift);
+        memcpy(hb + shift, data, n);
+        const char *q = hb + shift;
+        count("accessor.unaligned_copies");
+        rtosc_arg_itr_t it2 = rtosc_itr_begin(q);
+        for(size_t k = 0; k < na; ++k) {
+            bool ok2 = true;
+            for(int pass = 0; pass < 2 && ok2; ++pass) {
+                char t; rtosc_arg_t a;
+                if(pass == 0) { t = rtosc_type(q, k); a = rtosc_argument(q, k); }
+                else { if(rtosc_itr_end(it2)) { ok2 = false; break; } rtosc_arg_val_t av = rtosc_itr_next(&it2); t = av.type; a = av.val; }
+                bool same = t == first[k].first;
+                if(same) switch(t) {
+                    case 's': case 'S': same = a.s - q == first[k].second.s - p; break;
+                    case 'b': same = (const char *)a.b.data - q == (const char *)first[k].second.b.data - p && a.b.len == first[k].second.b.len; break;
+                    case 'h': case 't': case 'd': same = !memcmp(&a.t, &first[k].second.t, 8); break;
+                    case 'i': case 'c': case 'r': case 'f': case 'm': same = !memcmp(&a.i, &first[k].second.i, 4); break;
+                    default: break;
+                }
+                if(!same) ok2 = false;
+            }
+            if(!ok2) { fail("accessor_depends_on_alignment", tags, g_desc, fmt("arg %zu of the same bytes at an aligned address + %zu differs", k, shift), "the same value wherever the message lies"); break; }
+        }
+        free(hb);
+    }
+    // ... and whatever message stood at the same address before: a fixed buffer receives message after message,
+    // the first argument read is the one behind the last argument read from its predecessor
+    if(na >= 2 && n + 8 <= 8192) {
+        static char *arena = (char *)calloc(1, 8192);
+        static size_t prev_last = 0;
+        memcpy(arena, data, n);
+        memset(arena + n, 0, 8);
+        size_t probe = (prev_last + 1) % na;
+        for(int step = 0; step < 2; ++step) {
+            char t = rtosc_type(arena, probe);
+            rtosc_arg_t a = rtosc_argument(arena, probe);
+            bool same = t == first[probe].first;
+            if(same) switch(t) {
+                case 's': case 'S': same = a.s - arena == first[probe].second.s - p; break;
+                case 'b': same = (const char *)a.b.data - arena == (const char *)first[probe].second.b.data - p && a.b.len == first[probe].second.b.len; break;
+                case 'h': case 't': case 'd': same = !memcmp(&a.t, &first[probe].second.t, 8); break;
+                case 'i': case 'c': case 'r': case 'f': case 'm': same = !memcmp(&a.i, &first[probe].second.i, 4); break;
+                default: break;
+            }
+            count("accessor.reused_buffer_probe");
+            if(!same) { fail("by_index_history_dependent", tags, g_desc, fmt("arg %zu read first from a buffer that held another message before differs from a fresh reading", probe), "the same value whatever the buffer held before"); break; }
+            prev_last = probe;
+            probe = (size_t)(hash_bytes(data, n) % na);     // the next message's first read follows this one
+        }
+    }
     if(na) count("accepted.with_args");
 }
 
